@@ -130,3 +130,60 @@ func vC05RolledBack(w *VirtualTable, bkt *vBucket, pre []vRow, m0 int) {
 	symAssert(err == nil, "other-open-ok")
 	symAssert(vRowsEq(other, pre), "rolled-back-writes-never-published")
 }
+
+// H06c / H05c: the statements of one transaction share one write time (that is
+// what the connection does); a single writer must still see them applied in
+// statement order, like the same statements on a plain table.
+func VerifH_C06_txn_same_time() {
+	bkt := vNewBucket()
+	w := vMustOpen(bkt.client(1), vTableOpts{bf: 2}, 10)
+	pre := symChoice("row-exists-before", 2) == 1
+	if pre {
+		symAssert(vIns(w, 50, int64(1), int64(5), int64(6)) == nil, "insert-ok")
+		symAssert(w.Commit(vCtx) == nil, "commit-ok")
+	}
+	t := symInt64("t")
+	symAssume(vTimeOK(t))
+	symAssume(t > 50)
+	symAssert(w.Begin(vCtx) == nil, "begin-ok")
+	// reference: what a plain table holds
+	live, rb, rc := pre, interface{}(int64(5)), interface{}(int64(6))
+	n := symParam("stmts", 2)
+	for i := 0; i < n; i++ {
+		if i == 1 {
+			symEvent("second-statement-with-the-transactions-write-time")
+		}
+		switch symChoice("stmt", 4) {
+		case 0: // INSERT
+			err := vIns(w, t, int64(1), int64(10+i), int64(20+i))
+			if live {
+				symAssert(err == ErrS3DBConstraintPrimaryKey, "duplicate-key-refused")
+			} else {
+				symAssert(err == nil, "insert-accepted-like-plain-sqlite")
+				live, rb, rc = true, int64(10+i), int64(20+i)
+			}
+		case 1: // UPDATE b
+			if live {
+				symAssert(w.Update(vAt(t), int64(1), map[int]interface{}{1: int64(30 + i)}) == nil, "update-ok")
+				rb = int64(30 + i)
+			}
+		case 2: // UPDATE c
+			if live {
+				symAssert(w.Update(vAt(t), int64(1), map[int]interface{}{2: int64(40 + i)}) == nil, "update-ok")
+				rc = int64(40 + i)
+			}
+		case 3: // DELETE
+			if live {
+				symAssert(w.Delete(vAt(t), int64(1)) == nil, "delete-ok")
+				live = false
+			}
+		}
+		rows, err := vScan(w)
+		symAssert(err == nil, "scan-ok")
+		symAssert((len(rows) == 1) == live, "row-presence-like-plain-sqlite")
+		if live && len(rows) == 1 {
+			symAssert(symDeepEq(rows[0].b, rb) && symDeepEq(rows[0].c, rc), "reads-own-writes-in-statement-order")
+		}
+	}
+	symReach("end")
+}
